@@ -32,6 +32,9 @@ type BlockImporter struct {
 	root                     string
 	networkID                base.NetworkID
 	statestree               fixedtree.Tree
+	opstree                  fixedtree.Tree
+	ops                      []base.Operation
+	sts                      []base.State
 	batchlimit               uint64
 }
 
@@ -113,6 +116,10 @@ func (im *BlockImporter) Save(context.Context) (func(context.Context) error, err
 		return nil, e.Errorf("not yet finished")
 	}
 
+	if err := im.isValidWithManifest(); err != nil {
+		return nil, e.Wrap(err)
+	}
+
 	if im.sufst != nil {
 		proof, err := im.statestree.Proof(im.sufst.Hash().String())
 		if err != nil {
@@ -191,6 +198,10 @@ func (im *BlockImporter) importItem(t base.BlockItemType, ir isaac.BlockItemRead
 			return im.importOperations(ir)
 		case base.BlockItemVoteproofs:
 			return im.importVoteproofs(ir)
+		case base.BlockItemProposal:
+			return im.importProposal(ir)
+		case base.BlockItemOperationsTree:
+			return im.importOperationsTree(ir)
 		default:
 			return im.importOther(ir)
 		}
@@ -265,6 +276,7 @@ func (im *BlockImporter) importOperations(ir isaac.BlockItemReader) error {
 		return err
 	default:
 		ops = ops[:i]
+		im.ops = ops
 
 		return im.bwdb.SetOperations(ophs[:len(ops)])
 	}
@@ -302,6 +314,7 @@ func (im *BlockImporter) importStates(ir isaac.BlockItemReader) error {
 		return err
 	default:
 		sts = sts[:i]
+		im.sts = sts
 
 		return im.bwdb.SetStates(sts)
 	}
@@ -314,6 +327,49 @@ func (im *BlockImporter) importStatesTree(ir isaac.BlockItemReader) error {
 	default:
 		return util.SetInterfaceValue(v, &im.statestree)
 	}
+}
+
+func (im *BlockImporter) importOperationsTree(ir isaac.BlockItemReader) error {
+	switch v, err := ir.Decode(); {
+	case err != nil:
+		return errors.WithMessage(err, "operations tree")
+	default:
+		return util.SetInterfaceValue(v, &im.opstree)
+	}
+}
+
+func (im *BlockImporter) importProposal(ir isaac.BlockItemReader) error {
+	switch v, err := ir.Decode(); {
+	case err != nil:
+		return errors.WithMessage(err, "proposal")
+	default:
+		pr, err := util.AssertInterfaceValue[base.ProposalSignFact](v)
+		if err != nil {
+			return err
+		}
+
+		return base.IsValidProposalWithManifest(pr, im.m.Manifest())
+	}
+}
+
+// isValidWithManifest checks the imported operations and states against the
+// trees and the tree roots of manifest, like IsValidBlockFromLocalFS.
+func (im *BlockImporter) isValidWithManifest() error {
+	manifest := im.m.Manifest()
+
+	if err := im.opstree.IsValid(nil); err != nil {
+		return err
+	}
+
+	if err := base.IsValidOperationsTreeWithManifest(im.opstree, im.ops, manifest); err != nil {
+		return err
+	}
+
+	if err := im.statestree.IsValid(nil); err != nil {
+		return err
+	}
+
+	return base.IsValidStatesTreeWithManifest(im.statestree, im.sts, manifest)
 }
 
 func (im *BlockImporter) importVoteproofs(ir isaac.BlockItemReader) error {
